@@ -33,6 +33,8 @@ CONFIGS = {
     "keep-tmp": dict(n_chroms=2, extra=["--keep_tmp"]),
     "annotation-free": dict(n_chroms=2, extra=[], annotated=False),
     "gzipped-outputs": dict(n_chroms=2, extra=[], gz=True),
+    # the killed run is a --force run started in a folder that still holds a COMPLETED earlier run (different reads, --keep_tmp)
+    "force-over-previous-run": dict(n_chroms=2, extra=[], dirty=True),
 }
 
 
@@ -68,7 +70,7 @@ def run(chk, scratch):
                 "directory of a -t 1 run, after .params was written; the run is killed (os._exit) immediately before it and continued with --resume; "
                 "quick: every distinct call site (function, operation, file kind) of 2 configurations once + random fill; thorough: every crash "
                 "point of every configuration + multi-process kills. non-trivial = distinct call sites crashed at")
-    conf_names = list(CONFIGS) if thorough else ["multi-chrom-groups-exons", "annotation-free"]
+    conf_names = list(CONFIGS) if thorough else ["multi-chrom-groups-exons", "annotation-free", "force-over-previous-run"]
     total_points = 0
     executed = 0
     sites_seen = set()
@@ -80,8 +82,36 @@ def run(chk, scratch):
         # clean run with the counting monitor
         clean = os.path.join(d, "clean")
         ev = os.path.join(d, "ev_clean")
+        stale = None
+        if cfg.get("dirty"):
+            # earlier run A: every second read, --keep_tmp, completed; its folder is the starting state of every run below
+            import pysam
+            half = os.path.join(d, "half.bam")
+            with pysam.AlignmentFile(os.path.join(d, "r.bam")) as src, pysam.AlignmentFile(half, "wb", header=src.header) as dst:
+                for i, a in enumerate(src.fetch(until_eof=True)):
+                    if i % 2 == 0:
+                        dst.write(a)
+            pysam.index(half)
+            stale = os.path.join(d, "stale")
+            a_args = args_for(cfg, d, stale, extra + ["--keep_tmp"])
+            a_args[a_args.index("--bam") + 1] = half
+            ra = runner.run_isoquant(a_args, os.path.join(d, "home"))
+            if ra["rc"] != 0:
+                raise runner.Inconclusive("could not prepare the stale folder: " + pipeline.fail_text(ra))
+            # reference = the same options in a CLEAN folder
+            ref_clean = os.path.join(d, "ref_clean")
+            rr = runner.run_isoquant(args_for(cfg, d, ref_clean, extra), os.path.join(d, "home"))
+            if rr["rc"] != 0:
+                raise runner.Inconclusive("reference run failed")
+            shutil.copytree(stale, clean)
         r = runner.run_isoquant(args_for(cfg, d, clean, extra), os.path.join(d, "home"), mon=["crash"],
                                 cfg={"crash_root": clean}, events=ev)
+        if cfg.get("dirty") and r["rc"] == 0:
+            # the tree every resumed run is compared with is the clean-folder run
+            for rel, why in runner.compare_trees(os.path.join(ref_clean, pipeline.PREFIX), os.path.join(clean, pipeline.PREFIX))[:4]:
+                chk.count("force_over_stale_folder_differs_from_clean_folder")
+            shutil.rmtree(clean)
+            shutil.copytree(ref_clean, clean)
         if r["rc"] is None:
             raise runner.Inconclusive("watchdog expired on the clean run")
         if r["rc"] != 0:
@@ -105,6 +135,10 @@ def run(chk, scratch):
             rng.shuffle(rest)
             budget = 26
             chosen += rest[:max(0, budget - len(chosen))]
+            if len(chosen) > 48:
+                # quick tier: a seed-dependent sample of the call sites (the thorough tier runs every crash point)
+                rng.shuffle(chosen)
+                chosen = sorted(chosen[:48])
         site_by_n = {e["n"]: site_of(e, clean) for e in points}
         per_conf[cname] = {"mutations": len(muts), "crash_points_in_scope": len(points), "executed": len(chosen),
                            "distinct_sites": len(by_site), "exhaustive": len(chosen) == len(points)}
@@ -113,6 +147,8 @@ def run(chk, scratch):
             out = os.path.join(d, "crash%d" % n)
             home = os.path.join(d, "home%d" % n)
             shutil.copytree(os.path.join(d, "home"), home)     # same annotation cache state as the clean run had at the end
+            if stale:
+                shutil.copytree(stale, out)
             r1 = runner.run_isoquant(args_for(cfg, d, out, extra), home, mon=["crash"],
                                      cfg={"crash_root": out, "crash_at": n}, events=os.path.join(d, "ev%d" % n))
             r2 = None
@@ -142,7 +178,9 @@ def run(chk, scratch):
                 diffs = runner.compare_trees(os.path.join(clean, _prefix_dir(cfg)), os.path.join(out, _prefix_dir(cfg)))
                 if not cfg["extra"].count("--keep_tmp"):
                     pass
-                diffs = [x for x in diffs if not (x[0].startswith("aux") and "--keep_tmp" not in cfg["extra"] and False)]
+                # aux/ holds temporary files (kept only for debugging with --keep_tmp); their binary content embeds process-local
+                # assignment ids and is not a final output
+                diffs = [x for x in diffs if not x[0].startswith("aux")]
                 for rel, why in diffs[:6]:
                     chk.violation("silent-diff:crash-site=%s:%s" % (site, file_kind(os.path.join(out, rel), out)),
                                   "%s: killed before mutation %d (%s); --resume exits 0 but %s %s" % (cname, n, site, rel, why), wit)
@@ -196,7 +234,8 @@ def run(chk, scratch):
                                   "-t 4 run killed (SIGKILL to the process group) at a worker's mutation %d (%s); --resume exits %s: %s" %
                                   (k, site, r2["rc"], r2["out"][-300:].replace("\n", " | ")), wit)
                 else:
-                    for rel, why in runner.compare_trees(os.path.join(clean, pipeline.PREFIX), os.path.join(out, pipeline.PREFIX))[:6]:
+                    for rel, why in [x for x in runner.compare_trees(os.path.join(clean, pipeline.PREFIX), os.path.join(out, pipeline.PREFIX))
+                                     if not x[0].startswith("aux")][:6]:
                         chk.violation("silent-diff:multiprocess:crash-site=%s:%s" % (site, file_kind(os.path.join(out, rel), out)),
                                       "-t 4 run killed at a worker's mutation %d (%s); --resume exits 0 but %s %s" % (k, site, rel, why), wit)
                 shutil.rmtree(out, ignore_errors=True)
@@ -206,7 +245,7 @@ def run(chk, scratch):
                       "exhaustive": all(v["exhaustive"] for v in per_conf.values()) if per_conf else False})
     chk.assumptions = ["crash points before .params is written are out of the property's scope",
                        "-t 1: all mutations happen in the main process in a deterministic order; os._exit models a kill (no clean-up handlers run)",
-                       "aux/ files are compared too (they are final files only with --keep_tmp, and absent otherwise)"]
+                       "aux/ (temporary files, kept with --keep_tmp for debugging) is not compared: the binary dumps embed process-local assignment ids"]
     chk.inconclusive_if(executed == 0, "no crash point executed")
     chk.min_nontrivial = 10
 
